@@ -38,13 +38,14 @@ TECHNIQUE = 'Lean 4 invariant proof (cache coherence by induction over histories
 def correspondence(ctx):
     rep = ctx.report
     rep.rules.append(RULE)
-    n = ctx.n(50, 1200)
-    F.histories(ctx, rep, ['basic', 'three-fits-decimal', 'fleet', 'long', 'noswitch-projected'], n, 'corr')
+    k = ctx.n(1, 20)
+    n = {'basic': 40 * k, 'three-fits-decimal': 30 * k, 'fleet': 40 * k, 'long': 25 * k, 'projheavy': 90 * k}
+    F.histories(ctx, rep, list(n), n, 'corr')
 
 
 def oracle(ctx):
     rep = ctx.report
-    F.mirror_oracle(ctx, rep, ['basic', 'noswitch-projected', 'fleet'], ctx.n(25, 600), 'mirror')
+    F.mirror_oracle(ctx, rep, ['basic', 'projheavy', 'fleet', 'pymods'], ctx.n(25, 600), 'mirror')
     F.report_k1(rep)
 
 
